@@ -14,6 +14,15 @@ CHECKS = {
  "C01": ("reference-graph SCC (branch-free cycle) + parameter relevance over the monad packages (AST, go/types)",
          "Structural necessary conditions, decided for every function of the four generated monad packages: the definitional reference graph has no branch-free cycle (a circular definition diverges on all-success inputs) and every parameter of every combinator is used. A violation names the cycle / the parameter.",
          "§4 C01", "the three laws as value equalities; Seq/List/Iterator/Eval/fn0/fn1 instances"),
+ "C03": ("path-sensitive nil-fact dataflow on SSA over Map/Set/immutable types, discarded-update rule, exhaustiveness of node type switches",
+         "Necessary conditions on the wrappers and on result threading (the trie arithmetic itself is not decided): every call through Map.Base / Set.set / Set.getEmpty / hamt.root / mapBuilder.m is dominated by its nil test (zero value behaves as empty); no persistent update result (Updated/Removed/Incl/Excl/node set/delete …) is discarded outside explicit in-place mode; every type switch over trie nodes has a default, covers all node kinds, or (leaf-only) covers every kind without children.",
+         "§4 C03", "trie arithmetic for every history and hasher (bitmaps, popcount indices, node conversions, collision nodes, resized flag)"),
+ "C04": ("field-sensitive points-to analysis on SSA with interprocedural write/return/invoke summaries and bool-flag guards (E1), builder typestate rule",
+         "Proves the stronger 'never writes foreign memory' for every exported function and method of the library outside the mutable surface: no store, append, copy, sort, map update or callee (through interface joins, call-backs and fold-threaded accumulators) writes an object reachable from a parameter, a global or unknown memory; writes guarded by the trie's `mutable` flag count only where true can reach them; builder methods that publish the in-place trie give it up.",
+         "§4 C04", "deep-snapshot equality over branching histories as such; user call-backs and user implementations of fp.List/MapBase are assumed not to write"),
+ "C05": ("syntactic protocol rules over the status type switches (CAS-only, final, retry, register, deliver), E1 snapshot immutability, nil-fact dataflow, atomic-cell access rule",
+         "Structural conditions without which some interleaving breaks single assignment / exactly-once delivery: the status cell changes only by CompareAndSwap against the pointer loaded in the same attempt; the completed case never writes; every lost CAS is retried; every case of a registration uses the call-back (invokes it with the completed value or swaps in a value built from the old list and the call-back); the completing CAS returns the captured list and Complete calls every element; no Promise/Future method writes memory it did not allocate (published listener slices are immutable); zero Promise/Future is guarded; the atomic cell is touched only through sync/atomic.",
+         "§4 C05", "linearizability over all interleavings (schedules are not enumerated)"),
  "C10": ("one-sided-comparison rule (R-LEX), mirrored accessor paths, sort.Interface shape check (AST, go/types)",
          "Structural necessary conditions of a strict total order / ordered permutation: every component Less test that falls through to further components is followed by the mirrored test; component calls use the same accessor path on both operands; every in-module sort.Interface keeps index order, swaps exactly i and j and reports len of the same slice.",
          "§4 C10", "transitivity/totality of leaf instances; Min/Max semantics as values"),
@@ -29,6 +38,9 @@ CHECKS = {
  "C18": ("type-directed sanitising rule over clone closures + instance-parameter relevance (AST, go/types)",
          "Structural necessary conditions for deep copies: every component-instance parameter of every clone combinator is used, and in every clone closure each use of the input is cloned through a component instance (Clone call, map with a Clone method value, range, nil/len test) — nothing of the input reaches the result uncloned.",
          "§4 C18", "structural equality incl. nil-vs-empty"),
+ "C19": ("must-hold lock dataflow on SSA, E1 snapshot immutability, syntactic single-load and check-then-act rules",
+         "Structural conditions of linearizability: every Store on the snapshot cell happens under the map's mutex and every exit releases it; no method (nor a literal handed to copyOnWrite) writes a map loaded from the cell; read-only methods load the snapshot once; a method that reads outside the lock before copyOnWrite re-derives its decision from the literal's own parameter and returns nothing read after the critical section.",
+         "§4 C19", "linearizability over all interleavings"),
  "C20": ("path-sensitive nil-fact dataflow on SSA (R-NILGUARD), fabricated-return rule, must-hold lock dataflow on SSA",
          "Three clauses: every call through Iterator.hasNext is dominated by its nil test (zero Iterator behaves as empty); no MakeIterator next() returns a fabricated zero value; in Duplicate every access to the shared queue/flag/source happens with the mutex held and every exit releases it.",
          "§4 C20", "HasNext idempotence of look-ahead combinators; pull-order independence of Duplicate/Span/Partition"),
